@@ -571,6 +571,11 @@ func (q *BufferedChannelQueue[T]) loadFromPool() {
 
 		q.lock.Lock()
 		verifAt("bcq.loader.locked")
+		// Close() might have closed the channels since the check above(it sets isClosed under this lock)
+		if q.isClosed.Get() {
+			q.lock.Unlock()
+			break
+		}
 
 		var val T
 		var pollErr, offerErr error
@@ -599,6 +604,13 @@ func (q *BufferedChannelQueue[T]) loadFromPool() {
 }
 
 func (q *BufferedChannelQueue[T]) notifyWorkers() {
+	// Close() closes loadWorkerCh under the lock: never post to it after(or while) that happens
+	q.lock.RLock()
+	defer q.lock.RUnlock()
+	if q.isClosed.Get() {
+		return
+	}
+
 	q.loadWorkerCh.Offer(1)
 	q.freeNodeWorkerCh.Offer(1)
 }
